@@ -536,10 +536,15 @@ class SigmaCorrelationRule(SigmaRuleBase, ProcessingItemTrackingMixin):
 
         # Correlation type
         correlation_type = correlation_rule.get("type")
-        if correlation_type is not None:
+        if correlation_type is not None and not isinstance(correlation_type, str):
+            errors.append(
+                sigma_exceptions.SigmaCorrelationTypeError(
+                    "Sigma correlation type must be a string", source=source
+                )
+            )
+            correlation_type = None
+        elif correlation_type is not None:
             try:
-                if not isinstance(correlation_type, str):
-                    raise KeyError(correlation_type)
                 correlation_type = SigmaCorrelationType[correlation_type.upper()]
             except KeyError:
                 errors.append(
